@@ -42,9 +42,10 @@ func setup4(args ...string) (handler.Handler4, error) {
 
 		route := &dhcpv4.Route{}
 		_, route.Dest, err = net.ParseCIDR(fields[0])
-		if err != nil || route.Dest.IP.To4() == nil {
-			// option 121 can only carry IPv4 routes; an IPv6 one would panic when
-			// the first reply is serialized
+		if err != nil || route.Dest.IP.To4() == nil || len(route.Dest.Mask) != net.IPv4len {
+			// option 121 can only carry IPv4 routes; an IPv6 one (also an IPv4-mapped
+			// one, whose mask is 128 bits wide) would panic when the first reply is
+			// serialized
 			return Handler4, errors.New("expected a destination subnet, got: " + fields[0])
 		}
 
